@@ -41,9 +41,9 @@ ExpV(t, v) ==
   CASE t.k \in FixedKinds -> (IF t.k = "enum" THEN SubSeq(v, 5, 8) ELSE v)
     [] t.k = "string" -> v
     [] t.k = "binary" -> v.b
-    [] t.k \in ListKinds -> [i \in 1..Len(v.items) |-> ExpE(t.e, v.items[i])]
-    [] t.k = "map" -> [i \in 1..Len(v.ents) |->
-                         <<ExpE(t.kt, v.ents[i][1]), ExpE(t.vt, v.ents[i][2])>>]
+    [] t.k \in ListKinds -> Mat([i \in 1..Len(v.items) |-> ExpE(t.e, v.items[i])])
+    [] t.k = "map" -> Mat([i \in 1..Len(v.ents) |->
+                         <<ExpE(t.kt, v.ents[i][1]), ExpE(t.vt, v.ents[i][2])>>])
     [] t.k = "struct" -> ExpS(t.s, v)
 \* tree of a field value / element that is written (a nil pointer is only legal for structs)
 ExpE(t, v) ==
@@ -51,8 +51,8 @@ ExpE(t, v) ==
 ExpS(s, v) ==
   LET ff == FieldsOf(s)
       present == {j \in 1..Len(ff) : ~Omitted(s, ff[j], v.f[ff[j].key])} IN
-  [f |-> [key \in {ff[j].key : j \in present} |->
-            LET j == CHOOSE j \in present : ff[j].key = key IN ExpE(ff[j].t, v.f[key])],
+  [f |-> MatF([key \in {ff[j].key : j \in present} |->
+            LET j == CHOOSE j \in present : ff[j].key = key IN ExpE(ff[j].t, v.f[key])]),
    unk |-> IF HasUnk(s) THEN v.unk ELSE <<>>]
 
 \* ---------------------------------------------------------------------------
@@ -63,16 +63,16 @@ EncW(t, w) ==
   CASE t.k \in FixedKinds -> w
     [] t.k \in {"string", "binary"} -> BE4(Len(w)) \o w
     [] t.k \in ListKinds ->
-         <<WT(t.e)>> \o BE4(Len(w)) \o Flat([i \in 1..Len(w) |-> EncW(t.e, w[i])])
+         <<WT(t.e)>> \o BE4(Len(w)) \o Flat(Mat([i \in 1..Len(w) |-> EncW(t.e, w[i])]))
     [] t.k = "map" ->
          <<WT(t.kt), WT(t.vt)>> \o BE4(Len(w)) \o
-         Flat([i \in 1..Len(w) |-> EncW(t.kt, w[i][1]) \o EncW(t.vt, w[i][2])])
+         Flat(Mat([i \in 1..Len(w) |-> EncW(t.kt, w[i][1]) \o EncW(t.vt, w[i][2])]))
     [] t.k = "struct" ->
          LET ff == FieldsOf(t.s) IN
-         Flat([j \in 1..Len(ff) |->
+         Flat(Mat([j \in 1..Len(ff) |->
                  IF ff[j].key \in DOMAIN w.f
                  THEN <<WT(ff[j].t)>> \o BE2(ff[j].id) \o EncW(ff[j].t, w.f[ff[j].key])
-                 ELSE <<>>]) \o w.unk \o <<TSTOP>>
+                 ELSE <<>>])) \o w.unk \o <<TSTOP>>
 
 \* written after the structure of a size walk: no byte string is built
 RECURSIVE SizeW(_, _)
@@ -81,17 +81,17 @@ SizeW(t, w) ==
     [] t.k \in {"string", "binary"} -> 4 + Len(w)
     [] t.k \in ListKinds ->
          IF t.e.k \in FixedKinds THEN 5 + Len(w) * WireW(t.e.k)
-         ELSE 5 + Sum([i \in 1..Len(w) |-> SizeW(t.e, w[i])])
+         ELSE 5 + Sum(Mat([i \in 1..Len(w) |-> SizeW(t.e, w[i])]))
     [] t.k = "map" ->
          6 + (IF t.kt.k \in FixedKinds THEN Len(w) * WireW(t.kt.k)
-              ELSE Sum([i \in 1..Len(w) |-> SizeW(t.kt, w[i][1])]))
+              ELSE Sum(Mat([i \in 1..Len(w) |-> SizeW(t.kt, w[i][1])])))
            + (IF t.vt.k \in FixedKinds THEN Len(w) * WireW(t.vt.k)
-              ELSE Sum([i \in 1..Len(w) |-> SizeW(t.vt, w[i][2])]))
+              ELSE Sum(Mat([i \in 1..Len(w) |-> SizeW(t.vt, w[i][2])])))
     [] t.k = "struct" ->
          LET ff == FieldsOf(t.s) IN
          1 + Len(w.unk) +
-         Sum([j \in 1..Len(ff) |->
-                IF ff[j].key \in DOMAIN w.f THEN 3 + SizeW(ff[j].t, w.f[ff[j].key]) ELSE 0])
+         Sum(Mat([j \in 1..Len(ff) |->
+                IF ff[j].key \in DOMAIN w.f THEN 3 + SizeW(ff[j].t, w.f[ff[j].key]) ELSE 0]))
 
 StructT(s) == [k |-> "struct", s |-> s, ptr |-> FALSE]
 Enc(s, v)  == EncW(StructT(s), ExpS(s, v))
@@ -168,17 +168,15 @@ BagOf(c) ==  \* c: sequence of canonical entries
   LET s == {c[i] : i \in 1..Len(c)} IN
   [n |-> Len(c), s |-> s,
    m |-> IF Cardinality(s) = Len(c) THEN <<>>
-         ELSE [x \in s |-> Cardinality({i \in 1..Len(c) : c[i] = x})]]
+         ELSE MatF([x \in s |-> Cardinality({i \in 1..Len(c) : c[i] = x})])]
 
 RECURSIVE CanonW(_, _)
 CanonW(t, w) ==
   CASE t.k \in ScalarKinds \cup {"binary"} -> w
-    [] t.k \in ListKinds -> [i \in 1..Len(w) |-> CanonW(t.e, w[i])]
-    [] t.k = "map" -> BagOf([i \in 1..Len(w) |-> <<CanonW(t.kt, w[i][1]), CanonW(t.vt, w[i][2])>>])
+    [] t.k \in ListKinds -> Mat([i \in 1..Len(w) |-> CanonW(t.e, w[i])])
+    [] t.k = "map" -> BagOf(Mat([i \in 1..Len(w) |-> <<CanonW(t.kt, w[i][1]), CanonW(t.vt, w[i][2])>>]))
     [] t.k = "struct" ->
-         [f |-> [key \in DOMAIN w.f |->
-                   CanonW(FieldsOf(t.s)[CHOOSE j \in 1..Len(FieldsOf(t.s)) :
-                                           FieldsOf(t.s)[j].key = key].t, w.f[key])],
+         [f |-> MatF([key \in DOMAIN w.f |-> CanonW(FieldByKey(t.s, key).t, w.f[key])]),
           unk |-> w.unk]
 
 NormBool(v) == IF v[1] = 0 THEN <<0>> ELSE <<1>>
@@ -188,15 +186,13 @@ CanonGV(t, v) ==
   CASE t.k = "bool" -> NormBool(v)
     [] t.k \in ScalarKinds \ {"bool"} -> v
     [] t.k = "binary" -> [nil |-> v.nil, b |-> v.b]
-    [] t.k \in ListKinds -> [nil |-> v.nil, items |-> [i \in 1..Len(v.items) |-> CanonG(t.e, v.items[i])]]
+    [] t.k \in ListKinds -> [nil |-> v.nil, items |-> Mat([i \in 1..Len(v.items) |-> CanonG(t.e, v.items[i])])]
     [] t.k = "map" ->
          [nil |-> v.nil,
-          bag |-> BagOf([i \in 1..Len(v.ents) |->
-                           <<CanonG(t.kt, v.ents[i][1]), CanonG(t.vt, v.ents[i][2])>>])]
+          bag |-> BagOf(Mat([i \in 1..Len(v.ents) |->
+                           <<CanonG(t.kt, v.ents[i][1]), CanonG(t.vt, v.ents[i][2])>>]))]
     [] t.k = "struct" ->
-         [f |-> [key \in DOMAIN v.f |->
-                   CanonG(FieldsOf(t.s)[CHOOSE j \in 1..Len(FieldsOf(t.s)) :
-                                           FieldsOf(t.s)[j].key = key].t, v.f[key])],
+         [f |-> MatF([key \in DOMAIN v.f |-> CanonG(FieldByKey(t.s, key).t, v.f[key])]),
           unk |-> v.unk]
 CanonG(t, v) ==
   IF t.ptr THEN (IF v.p = 0 THEN [p |-> 0] ELSE [p |-> 1, v |-> CanonGV(t, v.v)])
@@ -221,7 +217,7 @@ SignExt(w4) == (IF w4[1] >= 128 THEN <<255, 255, 255, 255>> ELSE <<0, 0, 0, 0>>)
 SameKey(tk, a, b) == IF tk.ptr THEN FALSE          \* pointer keys are distinct objects
                      ELSE IF tk.k = "double" THEN FloatEq(a, b) ELSE a = b
 Dedup(tk, ents) ==
-  SelectSeq([i \in 1..Len(ents) |-> [e |-> ents[i], i |-> i]],
+  SelectSeq(Mat([i \in 1..Len(ents) |-> [e |-> ents[i], i |-> i]]),
             LAMBDA x : ~\E j \in (x.i + 1)..Len(ents) : SameKey(tk, ents[j][1], x.e[1]))
 
 RECURSIVE DT(_, _, _, _), DV(_, _, _, _), DItems(_, _, _, _, _, _, _), DPairs(_, _, _, _, _, _, _, _),
@@ -287,8 +283,8 @@ DV(t, b, i, prior) ==
             ELSE IF n > (Remain(b, i) - 6) \div (MinWire(WT(t.kt)) + MinWire(WT(t.vt))) THEN DBad
             ELSE LET r == DPairs(t.kt, t.vt, b, i + 6, n, <<>>, 6, FALSE) IN
                  IF r.st # "ok" THEN r
-                 ELSE [r EXCEPT !.v = [nil |-> FALSE,
-                                       ents |-> [x \in 1..Len(Dedup(t.kt, r.v)) |-> Dedup(t.kt, r.v)[x].e]]]
+                 ELSE LET d == Dedup(t.kt, r.v) IN
+                      [r EXCEPT !.v = [nil |-> FALSE, ents |-> Mat([x \in 1..Len(d) |-> d[x].e])]]
   ELSE \* nested struct: declared defaults first, then the fields of the message
        DFields(t.s, b, i, IF HasInit(t.s) THEN DefaultStruct(t.s) ELSE prior, {}, <<>>, 0, FALSE)
 
@@ -313,20 +309,58 @@ NormV(t, x) ==
   CASE t.k = "enum" -> SignExt(SubSeq(x, 5, 8))
     [] t.k \in ScalarKinds \ {"enum"} -> x
     [] t.k = "binary" -> [nil |-> FALSE, b |-> x.b]
-    [] t.k \in ListKinds -> [nil |-> FALSE, items |-> [i \in 1..Len(x.items) |-> NormE(t.e, x.items[i])]]
+    [] t.k \in ListKinds -> [nil |-> FALSE, items |-> Mat([i \in 1..Len(x.items) |-> NormE(t.e, x.items[i])])]
     [] t.k = "map" -> [nil |-> FALSE,
-                       ents |-> [i \in 1..Len(x.ents) |->
-                                   <<NormE(t.kt, x.ents[i][1]), NormE(t.vt, x.ents[i][2])>>]]
+                       ents |-> Mat([i \in 1..Len(x.ents) |->
+                                   <<NormE(t.kt, x.ents[i][1]), NormE(t.vt, x.ents[i][2])>>])]
     [] t.k = "struct" -> NormS(t.s, x)
 NormE(t, x) ==
   IF t.ptr THEN [p |-> 1, v |-> IF x.p = 0 THEN DefaultStruct(t.s) ELSE NormV(t, x.v)]
   ELSE NormV(t, x)
 NormS(s, v) ==
   LET ff == FieldsOf(s) IN
-  [f |-> [key \in DOMAIN v.f |->
-            LET f == ff[CHOOSE j \in 1..Len(ff) : ff[j].key = key] IN
+  [f |-> MatF([key \in DOMAIN v.f |->
+            LET f == FieldByKey(s, key) IN
             IF Omitted(s, f, v.f[key])
             THEN (IF HasInit(s) THEN f.def ELSE ZeroOf(f.t))
-            ELSE NormE(f.t, v.f[key])],
+            ELSE NormE(f.t, v.f[key])]),
    unk |-> IF HasUnk(s) THEN v.unk ELSE <<>>]
+
+\* ---------------------------------------------------------------------------
+\* Diagnostics: path of the first difference between two Go values (as canonical
+\* forms differ); used only in the text of a rejection, never for a verdict.
+\* ---------------------------------------------------------------------------
+RECURSIVE DiffG(_, _, _), DiffGV(_, _, _)
+DiffGV(t, a, b) ==
+  IF CanonGV(t, a) = CanonGV(t, b) THEN <<>>
+  ELSE CASE t.k \in ScalarKinds \cup {"binary"} -> <<t.k>>
+    [] t.k \in ListKinds ->
+         IF a.nil # b.nil THEN <<"nil">>
+         ELSE IF Len(a.items) # Len(b.items) THEN <<"len", ToString(Len(a.items)), ToString(Len(b.items))>>
+         ELSE LET i == CHOOSE i \in 1..Len(a.items) : CanonG(t.e, a.items[i]) # CanonG(t.e, b.items[i])
+              IN <<"item", ToString(i)>> \o DiffG(t.e, a.items[i], b.items[i])
+    [] t.k = "map" ->
+         IF a.nil # b.nil THEN <<"nil">>
+         ELSE IF Len(a.ents) # Len(b.ents) THEN <<"maplen", ToString(Len(a.ents)), ToString(Len(b.ents))>>
+         ELSE LET bad == {i \in 1..Len(a.ents) :
+                            ~\E j \in 1..Len(b.ents) :
+                               /\ CanonG(t.kt, a.ents[i][1]) = CanonG(t.kt, b.ents[j][1])
+                               /\ CanonG(t.vt, a.ents[i][2]) = CanonG(t.vt, b.ents[j][2])} IN
+              IF bad = {} THEN <<"multiplicity">>
+              ELSE LET i == CHOOSE i \in bad : TRUE
+                       js == {j \in 1..Len(b.ents) : CanonG(t.kt, a.ents[i][1]) = CanonG(t.kt, b.ents[j][1])} IN
+                   IF js = {} THEN <<"entry", ToString(i), "key-not-found">>
+                   ELSE <<"entry", ToString(i), "value">> \o
+                        DiffG(t.vt, a.ents[i][2], b.ents[CHOOSE j \in js : TRUE][2])
+    [] t.k = "struct" ->
+         IF a.unk # b.unk THEN <<"unk">>
+         ELSE LET key == CHOOSE key \in DOMAIN a.f :
+                   LET ft == FieldsOf(t.s)[CHOOSE j \in 1..Len(FieldsOf(t.s)) : FieldsOf(t.s)[j].key = key].t
+                   IN CanonG(ft, a.f[key]) # CanonG(ft, b.f[key])
+                  ft == FieldsOf(t.s)[CHOOSE j \in 1..Len(FieldsOf(t.s)) : FieldsOf(t.s)[j].key = key].t
+              IN <<t.s, key>> \o DiffG(ft, a.f[key], b.f[key])
+DiffG(t, a, b) ==
+  IF t.ptr THEN (IF a.p # b.p THEN <<"ptr-nil">> ELSE IF a.p = 0 THEN <<>> ELSE DiffGV(t, a.v, b.v))
+  ELSE DiffGV(t, a, b)
+DiffStruct(s, a, b) == DiffG(StructT(s), a, b)
 =============================================================================
